@@ -20,7 +20,7 @@ import sys
 import vv
 import prims_common as pc
 
-COMBOS = [("mep", "std"), ("mep", "alps"), ("ga", "std"), ("ga", "alps"), ("de", "de"), ("de", "dealps")]
+COMBOS = [("mep", "std"), ("mep", "alps"), ("team", "std"), ("team", "alps"), ("ga", "std"), ("ga", "alps"), ("de", "de"), ("de", "dealps")]
 FIELDS = ["kind", "strat", "mode", "seed", "individuals", "min_individuals", "layers", "tournament", "mate_zone",
           "elitism", "age_gap", "p_same", "p_cross", "p_mutation", "brood", "generations", "cache", "eval",
           "evalmod", "shake_every", "max_stuck"]
